@@ -174,12 +174,17 @@ def analyse(sess, outs, strict_lockstep=False):
                 snd_enabled, snd_max, snd_run = True, 0, 0
             elif kind == "enc_enable_max":
                 snd_enabled, snd_max, snd_run = True, op["n"], 0
+            elif kind == "enc_set_crc":
+                pass        # replacing the calculator does not touch the re-use policy
 
         # ------------------------------------------------------------------ encapsulation
         elif kind in ("encap", "encap_ext", "encap_frag"):
             pdu, buf, reg = op["pdu"].val, op["buf"].val, op["reg"]
             fact = {"ok": o.ok, "kind": None}
             info[i] = fact
+            if kind != "encap_frag":
+                # whether a re-use substitution may apply to this call (the previews take no encapsulator state)
+                fact["would_subst"] = bool(snd_enabled and op["label"].kind in "63" and snd_prev == op["label"])
             if kind == "encap_frag":
                 cx = op["ctx"]
                 ctx = ctxs.get(cx) if isinstance(cx, int) else cx
@@ -481,6 +486,8 @@ def analyse(sess, outs, strict_lockstep=False):
                 trains["__unknown__"] = "?"
                 rx_last = "?"
             check_conservation(i, o, created, owned, held, lost_by_contract, F)
+            if o.state.startswith("D "):
+                sess._prev_mem = parse_mem_state(o.state)
             if kind == "decap":
                 sync_trains(i, o, trains, F)
             if ref_mem is not None:
@@ -634,7 +641,7 @@ def ref_mem_op(i, op, o, ref, held, lost, trains, F):
                 exp = "err underflow"
         got = ("ok " + o.kv.get("id", "?")) if o.ok else o.res
         if got != exp:
-            F(i, ["C17"], "new_frag(%d) -> %s, contract says %s" % (op["fid"], got, exp))
+            F(i, ["C17", "C07"], "new_frag(%d) -> %s, contract says %s" % (op["fid"], got, exp))
         if o.ok:
             held[int(o.kv["h"])] = o.kv["id"]
             ref.setdefault("hfid", {})[int(o.kv["h"])] = op["fid"]
@@ -724,6 +731,19 @@ def decap_oracle(i, op, so, o, fed, mand, rx_last, trains, info, strict, sess, F
         return rx_last
     n = pk.total
     cons = dec_consumed(so)
+    if pk.kind == "F" and so.err and so.toks[1].startswith("Memory.overflow") and sess.__dict__.get("_prev_mem"):
+        pm = sess._prev_mem
+        nslots = pm["n"] or 0
+        use = None
+        if nslots:
+            sl = pm["slots"][pk.frag_id % nslots] if pk.frag_id % nslots < len(pm["slots"]) else None
+            if isinstance(sl, dict):
+                use = sl["len"]
+            elif pm["free"]:
+                use = pm["free"][-1][1]
+        if use is not None and use >= len(pk.payload):
+            F(i, ["C07", "C16", "C02"], "a valid first fragment of frag id %d was refused with %s although a %d-byte storage was at hand for its %d payload bytes"
+              % (pk.frag_id, so.toks[1], use, len(pk.payload)))
     # per-packet rejections consume exactly the packet
     if so.err and so.toks[1] in ("Crc", "Memory.undefined", "Memory.underflow", "UnkownMandatoryHeader", "NoLabelSaved",
                                  "SizePduBuffer", "TotalLength", "InvalidLabel") and cons != n:
@@ -781,6 +801,8 @@ def decap_oracle(i, op, so, o, fed, mand, rx_last, trains, info, strict, sess, F
                 meta = so.kv["meta"].split(",")
                 if meta[2] != t.resolved or int(meta[1], 16) != t.pt:
                     F(i, ["C02", "C04", "C07"], "fragment status carries %s/%s, first fragment had %s/%04x" % (meta[2], meta[1], t.resolved, t.pt))
+                if ",".join(meta[3:]) != ext_tok(t.exts):
+                    F(i, ["C13", "C03"], "fragment status carries extensions %s, first fragment had %s" % (",".join(meta[3:]), ext_tok(t.exts)))
                 if pk.kind == "E":
                     P = bytes(t.payload)
                     lb = t.label.data if t.lt in "63" else b""
@@ -790,11 +812,11 @@ def decap_oracle(i, op, so, o, fed, mand, rx_last, trains, info, strict, sess, F
                         F(i, ["C02"], "end fragment answered with status %s" % so.toks[1])
                     else:
                         if not (ok_len and ok_crc):
-                            F(i, ["C03"], "PDU delivered although %s" % ("length %d+2+%d != total length %d" % (len(P), len(lb), t.total_len) if not ok_len else "the CRC does not verify"))
+                            F(i, ["C03", "C12"], "PDU delivered although %s" % ("length %d+2+%d != total length %d" % (len(P), len(lb), t.total_len) if not ok_len else "the CRC does not verify"))
                         if so.kv["pdu"] != digest(P) or int(meta[0]) != len(P):
                             F(i, ["C03", "C02"], "delivered bytes %s differ from the concatenated payloads %s" % (so.kv["pdu"], digest(P)))
                         if ",".join(meta[3:]) != ext_tok(t.exts):
-                            F(i, ["C13"], "extensions reported %s, first fragment carried %s" % (",".join(meta[3:]), ext_tok(t.exts)))
+                            F(i, ["C13", "C03"], "extensions reported %s, first fragment carried %s" % (",".join(meta[3:]), ext_tok(t.exts)))
                     trains.pop(pk.frag_id, None)
                 elif so.toks[1] != "F":
                     F(i, ["C02"], "intermediate fragment answered with status %s" % so.toks[1])
@@ -828,7 +850,7 @@ def decap_oracle(i, op, so, o, fed, mand, rx_last, trains, info, strict, sess, F
         if so.ok and pk.kind in "CF" and src.get("intended") is not None:
             meta = so.kv["meta"].split(",")
             if meta[2] != src["intended"].tok():
-                F(i, ["C04"], "PDU sent for label %s attributed to %s" % (src["intended"], meta[2]))
+                F(i, ["C04", "C01" if pk.kind == "C" else "C02"], "PDU sent for label %s attributed to %s" % (src["intended"], meta[2]))
         if so.ok and so.toks[1] == "C":
             pdu = src_pdu(sess, op)
             if pdu is not None and (so.kv["pdu"] != digest(pdu)):
@@ -861,7 +883,7 @@ def pair_previews(sess, outs, info, F):
                     if a.toks[0] in ("bad-op", "skipped") or b.toks[0] in ("bad-op", "skipped") or a.panic or b.panic:
                         break
                     f = info.get(j, {})
-                    if f.get("subst"):
+                    if f.get("subst") or f.get("would_subst"):
                         break
                     if a.err or b.err:
                         if not (a.err and b.err and a.toks[1] == b.toks[1]):
